@@ -669,13 +669,53 @@ fn sc_c10(seed: u64, thorough: bool) -> Vec<Scenario> {
         steps.push(Step::Frame(fl.seg(0, 0, F_SYN, &[])));
         steps.push(Step::Frame(fl.seg(1, ck.wrapping_add(1), F_PSH | F_ACK, &m)));
     }
-    vec![Scenario {
-        name: "rpc-wildcard-bytes".into(),
-        cfg: c,
-        start_ms: START,
-        steps,
-        samples: 4000, // every flow of the sweep is replayed and probed
-    }]
+    // every canonical request over TCP with one cut at each of the first 30 positions, and with two
+    // cuts inside the first 28 bytes: the signature is completed by the last segment
+    let mut cut_steps = Vec::new();
+    let apps = canonical_apps(&mut rng);
+    let mut sp = 30000u16;
+    for (_name, _, stream) in apps.iter() {
+        if stream.len() < 3 {
+            continue;
+        }
+        let lim = (stream.len() - 1).min(30);
+        let mut compositions: Vec<Vec<usize>> = (1..=lim).map(|c| vec![c]).collect();
+        let lim2 = (stream.len() - 1).min(27);
+        for _ in 0..(if thorough { 60 } else { 12 }) {
+            if lim2 >= 2 {
+                let a = rng.range(1, lim2 as u64 - 1) as usize;
+                let b = rng.range(a as u64 + 1, lim2 as u64) as usize;
+                compositions.push(vec![a, b]);
+            }
+        }
+        for cuts in compositions {
+            sp += 1;
+            let fl = if sp % 2 == 0 { Flow::v4(sp, 8080) } else { Flow::v6(sp, 8080) };
+            let ck = fl.cookie(&key);
+            cut_steps.push(Step::Frame(fl.seg(0, 0, F_SYN, &[])));
+            let mut prev = 0usize;
+            for c in cuts.iter().chain(std::iter::once(&stream.len())) {
+                cut_steps.push(Step::Frame(fl.seg(1 + prev as u32, ck.wrapping_add(1), F_PSH | F_ACK, &stream[prev..*c])));
+                prev = *c;
+            }
+        }
+    }
+    vec![
+        Scenario {
+            name: "rpc-wildcard-bytes".into(),
+            cfg: c.clone(),
+            start_ms: START,
+            steps,
+            samples: 4000, // every flow of the sweep is replayed and probed
+        },
+        Scenario {
+            name: "signature-cut-by-segmentation".into(),
+            cfg: c,
+            start_ms: START,
+            steps: cut_steps,
+            samples: 0,
+        },
+    ]
 }
 
 /// Every message type (class x method) as a second message on STUN-identified TCP flows and,
